@@ -78,6 +78,9 @@ func (p c02) Run(c *core.Ctx) {
 		}
 		sc = RandomGraph(c.Rng, GraphOpts{MinN: minN, MaxN: maxN, Types: world.TypesAll, PCycle: 0.9, Chords: 3,
 			ByTypeSlice: 0.15, QualSlice: 0.2, ByTypeUniq: 0.15, PUnnamed: 0.2})
+		if c.Index%3 == 0 {
+			addSelfCandidatePoints(c, sc)
+		}
 	default:
 		part = "self"
 		sc = selfOnlyScenario(c)
@@ -213,4 +216,36 @@ func evalAgainstModel(r *world.Run, strict bool, holders ...any) ([]problem, wor
 // classifyWiring maps the witness to a known-finding class by looking at the *input* only.
 func classifyWiring(r *world.Run, ps []problem) string {
 	return ""
+}
+
+// addSelfCandidatePoints: by-type single-valued interface points on holders that implement the
+// interface themselves while at least one other implementer exists (the point is satisfiable by the
+// others; the holder must never be the one picked - cycles through such points included).
+func addSelfCandidatePoints(c *core.Ctx, sc *world.Scenario) {
+	g := &world.G{Rng: c.Rng, Sc: sc}
+	for i := range sc.Nodes {
+		if c.Rng.Intn(4) != 0 {
+			continue
+		}
+		ti := world.Palette[sc.Nodes[i].Type]
+		for _, iface := range []string{"IA", "IB", "IC"} {
+			if !ti.Implements(iface) {
+				continue
+			}
+			others := 0
+			for j := range sc.Nodes {
+				if j != i && world.Palette[sc.Nodes[j].Type].Implements(iface) {
+					others++
+				}
+			}
+			if others == 0 {
+				continue
+			}
+			slots := g.FreeSlots(i, func(si world.SlotInfo) bool { return si.Kind == "iface" && si.Iface == iface })
+			if len(slots) > 0 {
+				g.SetTag(i, slots[0], "wire", "")
+			}
+			break
+		}
+	}
 }
